@@ -1,18 +1,25 @@
 /-
 C19 — No response from the target can abort or crash the run.
 
-Theorems over `Pandora.Model.C19` (the REPAIRED behaviour: fixes/C19-substr-clamp.diff, fixes/C19-xpath-nodeset.diff)
-and the decision trees of `Pandora.Model.C10`.  Quantified over ALL header values, modifier arguments, statuses,
-bodies (every predicate the peer controls is a free function), error chains, step lists and ammo sequences.
+Theorems over `Pandora.Model.C19` (the behaviour of /repo HEAD, which contains the repairs adbe8d7 substr clamps and
+4085816 xpath non-node-set) and the decision trees of `Pandora.Model.C10`.  Quantified over ALL header values,
+modifier arguments, statuses, bodies (every predicate the peer controls is a free function), error chains, TLS
+negotiation results, step lists, ammo sequences and numbers of instances.  `Pandora.Bridge.C19` (imported here, so
+it is rebuilt on every check) ties the index arithmetic of `substr`, the size-operator table, the status
+comparisons, `checkHTTP2` / `panicOnHTTP1Client.Do`, the `recover()` of `instance.Run` and the inventory of all
+run-time panic sites of the anchored files to the CURRENT source.
 -/
 import Pandora.Proofs.C19
+import Pandora.Bridge.C19
 
 namespace Pandora.Props.C19
 open Pandora.Model.C10 Pandora.Model.C19 Pandora.Proofs.C19
 
 /-! ## nothing the peer sends makes response-processing code panic -/
 
-/-- * `substr` with ANY integer arguments (negative, swapped, beyond the value) on ANY value slices within bounds;
+/-- * `substr` with ANY integer arguments (negative, swapped, beyond the value) on ANY value slices within bounds,
+  and the slice expression of the CURRENT source (`Gen.RespGuard.substrIdx`, regenerated statement by statement from
+  the closure in var_header.go) is that `substr`;
 * every modifier chain on every header value returns;
 * every postprocessor list on every response returns `ok` or an error, never a panic (var/header, assert/response,
   var/jsonpath on unparsable JSON, var/xpath on any HTML and any expression type);
@@ -20,14 +27,20 @@ open Pandora.Model.C10 Pandora.Model.C19 Pandora.Proofs.C19
 * hence a shot of ANY gun kind panics only in the documented fatal configuration. -/
 theorem C19_no_panic :
     (∀ (α : Type) (start end_ : Int) (v : List α), (substr start end_ v).isOk = true) ∧
+    (∀ (α : Type) (start end_ : Int) (v : List α),
+        goSlice v (Gen.RespGuard.substrIdx start end_ v.length).1 (Gen.RespGuard.substrIdx start end_ v.length).2
+          = substr start end_ v) ∧
     (∀ (mods : List Modifier) (v : List Char), (applyChain mods v).isOk = true) ∧
     (∀ (r : Resp) (pps : List PP), runPPs r pps ≠ .panic) ∧
     (∀ (a : GrpcAssert) (code : Nat) (outNil : Bool) (has : String → Bool), assertGrpc a code outNil has ≠ .panic) ∧
     (∀ g : GunShot, g.documentedFatal = false → g.run.panicked = false) := by
-  refine ⟨?_, ?_, runPPs_no_panic, assertGrpc_no_panic, ?_⟩
+  refine ⟨?_, ?_, ?_, runPPs_no_panic, assertGrpc_no_panic, ?_⟩
   · intro α a b v
     obtain ⟨r, hr⟩ := substr_ok a b v
     simp [hr, Checked.isOk]
+  · intro α a b v
+    rw [Bridge.C19.substrIdx_eq]
+    rfl
   · intro mods v
     obtain ⟨r, hr⟩ := applyChain_ok mods v
     simp [hr, Checked.isOk]
@@ -64,9 +77,9 @@ theorem C19_sample_and_continue :
         (instanceRun (shots.map GunShot.run)).result = .finished ∧
         (instanceRun (shots.map GunShot.run)).shotsTaken = shots.length ∧
         (instanceRun (shots.map GunShot.run)).samples = (shots.map fun g => g.run.reports).flatten) ∧
-    (∀ (h2 lacks : Bool) (cfg : AutoTagCfg) (tag : String) (id : Nat) (path : String) (reply : Reply),
-        (h2 && lacks) = false →
-        ∃ s, (GunShot.http h2 lacks cfg tag id path reply).run.reports = [s] ∧ carries reply s) ∧
+    (∀ (h2 : Bool) (facts : H2Facts) (cfg : AutoTagCfg) (tag : String) (id : Nat) (path : String) (reply : Reply),
+        (h2 && h2Panics facts reply) = false →
+        ∃ s, (GunShot.http h2 facts cfg tag id path reply).run.reports = [s] ∧ carries reply s) ∧
     (∀ (scn : String) (steps : List (StepCfg × Reply)),
         (GunShot.scenario scn steps).run.reports.length
           = executedSteps (steps.map fun (c, r) => { name := c.name, outcome := stepOutcome c r }) ∧
@@ -83,7 +96,7 @@ theorem C19_sample_and_continue :
       obtain ⟨g, hg, rfl⟩ := hs'
       rw [run_panicked_iff, hs g hg])
     simpa [List.map_map, Function.comp_def] using h
-  · intro h2 lacks cfg tag id path reply hf
+  · intro h2 facts cfg tag id path reply hf
     simp only [GunShot.run, hf]
     cases reply with
     | noResponse e =>
@@ -118,7 +131,171 @@ theorem C19_sample_and_continue :
     simp only [GunShot.run]
     exact Proofs.C10.shootGrpcScenario_length _ _
 
+/-! ## what the samples carry: the received status or the failure -/
+
+/-- A failed plain http exchange carries a NON-ZERO net code (so it is counted as a failure), provided the error
+chain has no `Errno(0)` leaf (Go's syscall layer never produces one; hypothesis `ErrnoNonzero` of C10). -/
+theorem C19_http_failure_is_visible (h2 : Bool) (facts : H2Facts) (cfg : AutoTagCfg) (tag : String) (id : Nat)
+    (path : String) (e : Err) (he : Proofs.C10.ErrnoNonzero e) (hf : (h2 && facts.alpnAlert) = false) :
+    ∃ s, (GunShot.http h2 facts cfg tag id path (.noResponse e)).run.reports = [s] ∧ s.proto = 0 ∧ s.net ≠ 0 := by
+  have hf' : (h2 && h2Panics facts (.noResponse e)) = false := by simpa [h2Panics] using hf
+  refine ⟨{ tags := httpTag cfg tag path, id := id, proto := 0, net := getErrno e }, ?_, rfl, ?_⟩
+  · simp [GunShot.run, hf', Reply.httpOutcome, shootHttp]
+  · exact Proofs.C10.getErrno_ne_zero e he
+
+/-- The http scenario gun, for EVERY step list and EVERY behaviour of the target: the samples are those of the steps
+the loop enters, in order (step `i` ↦ sample `i`); the loop enters the next step exactly when the previous one
+completed; the sample of a completed step carries the scenario.step tag, the RECEIVED STATUS and net code 0; the
+sample of a step that failed for whatever reason (no response, broken body, unparsable JSON, a scalar xpath, an
+assertion, a header the modifiers reject) carries the tag `…|__EMPTY__`, proto 0 and the failure net code 999, and
+it is the last sample of that shot. -/
+theorem C19_scenario_samples (scn : String) (steps : List (StepCfg × Reply)) :
+    let ms : List Step := steps.map fun (c, r) => { name := c.name, outcome := stepOutcome c r }
+    (GunShot.scenario scn steps).run.reports = ((steps.take (executedSteps ms)).map fun (c, r) => sampleOfStep scn c r) ∧
+    (∀ (c : StepCfg) (resp : Resp), stepCompleted c (.full resp) = true →
+        sampleOfStep scn c (.full resp) = { tags := stepTag scn c.name, id := 0, proto := resp.status, net := 0 }) ∧
+    (∀ (c : StepCfg) (r : Reply), stepCompleted c r = false →
+        sampleOfStep scn c r = { tags := stepTag scn c.name ++ "|" ++ emptyTag, id := 0, proto := 0, net := protoCodeError }) ∧
+    (∀ i, i + 1 < executedSteps ms → ∃ p, steps[i]? = some p ∧ stepCompleted p.1 p.2 = true) := by
+  refine ⟨shootScenario_reports scn steps, sampleOfStep_completed scn, sampleOfStep_failed scn, ?_⟩
+  induction steps with
+  | nil => intro i hi; simp [executedSteps] at hi
+  | cons p rest ih =>
+    obtain ⟨c, r⟩ := p
+    intro i hi
+    have hi' : i + 1 < (match stepOutcome c r with
+        | .received _ .ok => 1 + executedSteps (rest.map fun (c, r) => ({ name := c.name, outcome := stepOutcome c r } : Step))
+        | _ => 1) := hi
+    have hcompl : stepCompleted c r = true := by
+      cases hr : stepCompleted c r with
+      | true => rfl
+      | false =>
+        exfalso
+        have hso : ∀ st, stepOutcome c r ≠ .received st .ok := by
+          intro st heq
+          unfold stepOutcome at heq
+          by_cases hp : c.prepFails = true
+          · simp [hp] at heq
+          · simp only [hp] at heq
+            cases r with
+            | noResponse e => simp at heq
+            | brokenBody s e => simp at heq
+            | full resp =>
+              simp only [Bool.false_eq_true, if_false, StepOutcome.received.injEq] at heq
+              simp [stepCompleted, hp, heq.2] at hr
+        split at hi'
+        · rename_i st heq
+          exact hso st heq
+        · omega
+    cases i with
+    | zero => exact ⟨(c, r), rfl, hcompl⟩
+    | succ j =>
+      have hj : j + 1 < executedSteps (rest.map fun (c, r) => ({ name := c.name, outcome := stepOutcome c r } : Step)) := by
+        clear hi
+        split at hi'
+        · rw [Nat.add_comm 1] at hi'
+          exact Nat.lt_of_add_lt_add_right hi'
+        · omega
+      obtain ⟨q, hq, hqc⟩ := ih j hj
+      exact ⟨q, by simpa using hq, hqc⟩
+
+/-- The gRPC guns: a plain shot reports one sample whose proto code is the converted gRPC status of the call
+(0 / 400 for an unknown method / an ill-typed payload); a scenario reports one sample per entered call, in order,
+carrying the converted status of THAT call, also when an assertion then rejects the response. -/
+theorem C19_grpc_samples :
+    (∀ (tag : String) (o : GrpcOutcome),
+        (GunShot.grpc tag o).run.reports = [{ tags := tag, id := 0, proto := grpcProto o, net := 0 }]) ∧
+    (∀ (scn : String) (calls : List (GrpcCallCfg × GrpcReply)),
+        (GunShot.grpcScenario scn calls).run.reports
+          = ((calls.take (executedGrpcSteps (calls.map fun (c, r) => { tag := c.tag, outcome := grpcStepOutcome c r }))).map
+              fun (c, r) => sampleOfCall scn c r)) ∧
+    (∀ (scn : String) (c : GrpcCallCfg) (r : GrpcReply), c.kind = .callable →
+        (sampleOfCall scn c r).proto = Gen.RespGuard.grpcToHttp r.code) := by
+  refine ⟨fun tag o => by simp [GunShot.run, shootGrpc], fun scn calls => shootGrpcScenario_reports scn calls, ?_⟩
+  intro scn c r hk
+  simp [sampleOfCall, grpcStepOutcome, hk, grpcStepProto, Bridge.C19.grpcToHttp_eq]
+
+/-! ## the pool: any number of instances -/
+
+/-- For ANY number of instances and ANY distribution of the ammo over them: if no shot meets the documented fatal
+condition, every instance takes all its ammo, the pool finishes, and the aggregator receives exactly the samples of
+all shots. The pool fails if and only if some shot of some instance is the documented fatal one. -/
+theorem C19_pool (insts : List (List GunShot)) :
+    ((∀ shots ∈ insts, ∀ g ∈ shots, g.documentedFatal = false) →
+        poolResult (insts.map (·.map GunShot.run)) = .finished ∧
+        poolShots (insts.map (·.map GunShot.run)) = (insts.map List.length).sum ∧
+        poolSamples (insts.map (·.map GunShot.run)) = (insts.map fun shots => (shots.map fun g => g.run.reports).flatten).flatten) ∧
+    (poolResult (insts.map (·.map GunShot.run)) = .poolFailed ↔ ∃ shots ∈ insts, ∃ g ∈ shots, g.documentedFatal = true) := by
+  constructor
+  · intro h
+    have hp : ∀ shots ∈ insts.map (·.map GunShot.run), ∀ s ∈ shots, s.panicked = false := by
+      intro shots hs s hss
+      simp only [List.mem_map] at hs
+      obtain ⟨gs, hgs, rfl⟩ := hs
+      simp only [List.mem_map] at hss
+      obtain ⟨g, hg, rfl⟩ := hss
+      rw [run_panicked_iff]
+      exact h gs hgs g hg
+    obtain ⟨h1, h2⟩ := poolSamples_all _ hp
+    refine ⟨poolResult_finished _ hp, ?_, ?_⟩
+    · simpa [List.map_map, Function.comp_def] using h2
+    · simpa [List.map_map, Function.comp_def] using h1
+  · rw [poolResult_failed_iff]
+    constructor
+    · rintro ⟨shots, hs, s, hss, hp⟩
+      simp only [List.mem_map] at hs
+      obtain ⟨gs, hgs, rfl⟩ := hs
+      simp only [List.mem_map] at hss
+      obtain ⟨g, hg, rfl⟩ := hss
+      exact ⟨gs, hgs, g, hg, by rw [← run_panicked_iff]; exact hp⟩
+    · rintro ⟨gs, hgs, g, hg, hf⟩
+      exact ⟨gs.map GunShot.run, List.mem_map.mpr ⟨gs, hgs, rfl⟩, g.run, List.mem_map.mpr ⟨g, hg, rfl⟩,
+        by rw [run_panicked_iff]; exact hf⟩
+
 /-! ## only the documented condition is fatal -/
+
+/-- What "documented fatal" is, spelled out against `panicOnHTTP1Client.Do` / `checkHTTP2` (tied to the source by
+`Bridge.C19.panicOnHTTP1Do_eq`, `checkHTTP2Conds_eq`, `nextProtoTLS_eq`): the gun is the http2 gun AND the peer did
+not negotiate HTTP/2 — it answered the ALPN offer with the alert "no application protocol", or a response arrived
+over a connection that is not TLS, negotiated another protocol than `h2`, or not mutually.  Refusal, reset, silence,
+garbage, any status and any body are NOT fatal for the http2 gun; nothing is fatal for the other five gun kinds. -/
+theorem C19_documented_fatal_iff :
+    (∀ (h2 : Bool) (facts : H2Facts) (cfg : AutoTagCfg) (tag : String) (id : Nat) (path : String) (reply : Reply),
+      (GunShot.http h2 facts cfg tag id path reply).documentedFatal = true ↔
+        h2 = true ∧ (match reply with
+          | .noResponse _ => facts.alpnAlert = true
+          | _ => facts.tls = none ∨ (∃ p m, facts.tls = some (p, m) ∧ (p ≠ Gen.RespGuard.nextProtoTLS ∨ m = false)))) ∧
+    (∀ scn steps, (GunShot.scenario scn steps).documentedFatal = false) ∧
+    (∀ tag o, (GunShot.grpc tag o).documentedFatal = false) ∧
+    (∀ scn calls, (GunShot.grpcScenario scn calls).documentedFatal = false) := by
+  refine ⟨?_, fun _ _ => rfl, fun _ _ => rfl, fun _ _ => rfl⟩
+  intro h2 facts cfg tag id path reply
+  have hchk : checkHTTP2 facts.tls = false ↔
+      facts.tls = none ∨ (∃ p m, facts.tls = some (p, m) ∧ (p ≠ Gen.RespGuard.nextProtoTLS ∨ m = false)) := by
+    rw [Bridge.C19.nextProtoTLS_eq]
+    cases ht : facts.tls with
+    | none => simp [checkHTTP2]
+    | some pm =>
+      obtain ⟨p, m⟩ := pm
+      constructor
+      · intro h
+        refine Or.inr ⟨p, m, rfl, ?_⟩
+        by_cases hp : p = nextProtoTLS
+        · right
+          simpa [checkHTTP2, hp] using h
+        · left
+          exact hp
+      · rintro (h | ⟨p', m', heq, h⟩)
+        · cases h
+        · cases heq
+          rcases h with h | h
+          · simp [checkHTTP2, h]
+          · by_cases hp : p = nextProtoTLS <;> simp [checkHTTP2, hp, h]
+  cases reply with
+  | noResponse e => simp [GunShot.documentedFatal, h2Panics]
+  | brokenBody st e => simp [GunShot.documentedFatal, h2Panics, hchk]
+  | full r => simp [GunShot.documentedFatal, h2Panics, hchk]
+
 
 /-- An instance run fails the pool ("shoot panic") if and only if some shot was the documented fatal configuration:
 the http2 gun reaching a peer that does not speak HTTP/2. No status, header, body, JSON, HTML, truncation, reset,
@@ -165,10 +342,42 @@ example : (GunShot.scenario "s"
      (⟨"b", false, [.varHeader [⟨"X-Val", some [.substr 5 0]⟩]]⟩, .full ⟨404, fun _ => ['a','b','c'], 0, fun _ => false, false, fun _ => false⟩)]).run
     = { reports := [⟨"s.a", 0, 200, 0⟩, ⟨"s.b", 0, 404, 0⟩], panicked := false } := by decide
 -- the documented fatal case
-example : (GunShot.http true true ⟨false, 2, true⟩ "t" 1 "/" (.noResponse .other)).documentedFatal = true := rfl
-example : (instanceRun [(GunShot.http true true ⟨false, 2, true⟩ "t" 1 "/" (.noResponse .other)).run]).result = .poolFailed := by decide
+example : (GunShot.http true ⟨true, none⟩ ⟨false, 2, true⟩ "t" 1 "/" (.noResponse .other)).documentedFatal = true := rfl
+example : (instanceRun [(GunShot.http true ⟨true, none⟩ ⟨false, 2, true⟩ "t" 1 "/" (.noResponse .other)).run]).result = .poolFailed := by decide
 -- a refused connection is not fatal for the http2 gun
-example : (GunShot.http true false ⟨false, 2, true⟩ "t" 1 "/" (.noResponse (.opError (.syscallError (.errno 111))))).run
+example : (GunShot.http true {} ⟨false, 2, true⟩ "t" 1 "/" (.noResponse (.opError (.syscallError (.errno 111))))).run
     = { reports := [⟨"t", 1, 0, 111⟩], panicked := false } := by decide
+
+-- C19_http_failure_is_visible: a refused connection seen by the http2 gun
+example : Proofs.C10.ErrnoNonzero (.opError (.syscallError (.errno 111))) := by simp [Proofs.C10.ErrnoNonzero]
+-- C19_scenario_samples: a three-step scenario whose second response fails its assertion: two samples, the third step is not entered
+example : (GunShot.scenario "s"
+    [(⟨"a", false, [.varJsonpath ["x"]]⟩, .full ⟨201, fun _ => [], 2, fun _ => false, true, fun _ => true⟩),
+     (⟨"b", false, [.assertResponse { statusCode := 200 }]⟩, .full ⟨503, fun _ => [], 0, fun _ => false, false, fun _ => false⟩),
+     (⟨"c", false, []⟩, .full ⟨200, fun _ => [], 0, fun _ => false, false, fun _ => false⟩)]).run.reports
+    = [⟨"s.a", 0, 201, 0⟩, ⟨"s.b|__EMPTY__", 0, 0, 999⟩] := by decide
+example : stepCompleted ⟨"a", false, [.varXpath [.nodeSet]]⟩ (.full ⟨404, fun _ => [], 0, fun _ => false, false, fun _ => false⟩) = true := by decide
+example : stepCompleted ⟨"a", false, [.varXpath [.scalar]]⟩ (.full ⟨200, fun _ => [], 0, fun _ => false, false, fun _ => false⟩) = false := by decide
+-- C19_grpc_samples: Internal (13, e.g. a response message that does not unmarshal) is reported as 500; without an
+-- assertion the scenario goes on with the next call, with one it stops there
+example : (GunShot.grpcScenario "g" [(⟨"t0", .callable, []⟩, ⟨13, fun _ => false⟩), (⟨"t1", .callable, []⟩, ⟨0, fun _ => true⟩)]).run.reports
+    = [⟨"g.t0", 0, 500, 0⟩, ⟨"g.t1", 0, 200, 0⟩] := by decide
+example : (GunShot.grpcScenario "g" [(⟨"t0", .callable, [{ statusCode := 200 }]⟩, ⟨13, fun _ => false⟩), (⟨"t1", .callable, []⟩, ⟨0, fun _ => true⟩)]).run.reports
+    = [⟨"g.t0", 0, 500, 0⟩] := by decide
+-- C19_pool: three instances, one of them idle; 404s, a reset and a truncated body between them
+example : poolResult ([[GunShot.http false {} ⟨false, 2, true⟩ "a" 1 "/" (.noResponse .other)], [],
+    [GunShot.grpc "g" (.invoked 14), GunShot.http false {} ⟨false, 2, true⟩ "b" 2 "/" (.brokenBody 200 .other)]].map (·.map GunShot.run))
+    = .finished := by decide
+example : poolResult ([[GunShot.grpc "g" (.invoked 0)], [GunShot.http true ⟨false, none⟩ ⟨false, 2, true⟩ "t" 1 "/"
+    (.full ⟨200, fun _ => [], 0, fun _ => false, false, fun _ => false⟩)]].map (·.map GunShot.run)) = .poolFailed := by decide
+-- C19_documented_fatal_iff: http/1.1 negotiated; h2 negotiated but not mutually; plain TCP; and the good case
+example : (GunShot.http true ⟨false, some ("http/1.1", true)⟩ ⟨false, 2, true⟩ "t" 1 "/" (.brokenBody 200 .other)).documentedFatal = true := by decide
+example : (GunShot.http true ⟨false, some ("h2", false)⟩ ⟨false, 2, true⟩ "t" 1 "/" (.brokenBody 200 .other)).documentedFatal = true := by decide
+example : (GunShot.http true ⟨false, some ("h2", true)⟩ ⟨false, 2, true⟩ "t" 1 "/" (.brokenBody 500 .other)).documentedFatal = false := by decide
+example : (GunShot.http false ⟨true, none⟩ ⟨false, 2, true⟩ "t" 1 "/" (.noResponse .other)).documentedFatal = false := by decide
+-- the regenerated index arithmetic on the defect's witness: `in[3:3]`, not `in[3:5]`
+example : Gen.RespGuard.substrIdx 5 0 3 = (3, 3) := by decide
+example : Gen.RespGuard.sizeRejects ">" 10 3 = some true := by decide
+example : Gen.RespGuard.sizeRejects "~" 10 3 = none := by decide
 
 end Pandora.Props.C19
